@@ -83,6 +83,15 @@ def case_array(ctx, rng):
                 x = cur
                 nd = x.ndim
                 ctx.count("feature", "multi-label-array")
+    if x.ndim and len(x.blocks) >= 2 and rng.random() < 0.15:
+        # pending signs first, then blocks removed by an operation that does not synchronise:
+        # sign entries stay behind for blocks that no longer exist
+        gen.add_phases(rng, x, rng.randint(1, 2))
+        x2 = gen.dormant_signs(sr, rng, x)
+        if x2 is not x and x2.blocks:
+            x = x2
+            if any(k_ not in x.blocks for k_ in phases_of(x)):
+                ctx.count("feature", "sign-entries-for-removed-blocks")
     n2 = norm2(x)
     odd = R.par(sym, x.charge)
     allket = all(not ix.dual for ix in x.indices)
